@@ -267,6 +267,66 @@ class E2:
                         detail="solver answered %s within %d ms" % (r, cap_ms or self.cap_ms), role=role)
         return self.rep.add(ob)
 
+    def prove_cases(self, name, what, assumptions, cases, *, dom_name, functions, witness_terms=None, role=None, replay=None,
+                    cap_ms=None, extra_bounds=None, prefer=None):
+        """One obligation decided by one solver query per case: for every (case condition, goal):
+        assumptions & condition |= goal.  Used for path-enumerated control code (hundreds of small queries instead of one
+        large if-then-else formula).  A shared incremental solver holds the assumptions."""
+        engine = "E2-z3-" + dom_name
+        bounds = dict(extra_bounds or {})
+        bounds["cases"] = len(cases)
+        s = self._solver(cap_ms)
+        for a in assumptions:
+            s.add(a)
+        t0 = time.time()
+        r0 = s.check()
+        self.n_queries += 1
+        if r0 != z3.sat:
+            return self.rep.add(Obligation(name, engine, what, "inconclusive", time.time() - t0,
+                                           detail="assumptions are not satisfiable (%s)" % r0, functions=functions, bounds=bounds, role=role))
+        m0 = s.model()
+        witness = {k: show(model_value(m0, t)) for k, t in (witness_terms or {}).items()} or {"assumptions": "satisfiable"}
+        bad_model, unknown = None, 0
+        for (cond, goal) in cases:
+            # a fresh (non-incremental) solver per case: z3's incremental core is far slower on the FP theory
+            sc = self._solver(cap_ms)
+            sc.add(*assumptions)
+            sc.add(cond, z3.Not(goal))
+            r = sc.check()
+            self.n_queries += 1
+            if r == z3.sat:
+                bad_model = sc.model()
+                if prefer:
+                    sc.add(*prefer)
+                    if sc.check() == z3.sat:
+                        bad_model = sc.model()
+                break
+            if r != z3.unsat:
+                unknown += 1
+        dt = time.time() - t0
+        if bad_model is not None:
+            model = {k: show(model_value(bad_model, t)) for k, t in (witness_terms or {}).items()}
+            ob = Obligation(name, engine, what, "violated", dt, functions=functions, bounds=bounds, model=model, role=role,
+                            detail="solver returned a counterexample")
+            self.rep.add(ob)
+            if replay is not None:
+                try:
+                    ok, path, desc = replay(bad_model, ob)
+                except Exception as ex:
+                    ok, path, desc = False, None, "replay raised %r" % (ex,)
+                ob.detail += " | replay: " + str(desc)
+                if ok:
+                    self.rep.violations.append(Violation(self.rep.prop, ob, path, "%s: %s" % (role or name, desc), role or name))
+                else:
+                    self.rep.unreplayed.append((ob, desc))
+            else:
+                self.rep.unreplayed.append((ob, "no native replay defined for this obligation"))
+            return ob
+        if unknown:
+            return self.rep.add(Obligation(name, engine, what, "inconclusive", dt, functions=functions, bounds=bounds, role=role,
+                                           detail="%d of %d case queries answered unknown within the cap" % (unknown, len(cases))))
+        return self.rep.add(Obligation(name, engine, what, "discharged", dt, functions=functions, bounds=bounds, witness=witness, role=role))
+
     def expect_sat(self, name, what, constraints, *, dom_name, functions, witness_terms=None, cap_ms=None):
         """Tightness / reachability twin: must be satisfiable, else the sibling claim is suspect (vacuous box)."""
         r, m, t = self.check(constraints, cap_ms=cap_ms, tag=name)
